@@ -130,7 +130,7 @@ CLAIMED = {
                   "known finding KF-window-search); calls with an explicit uptime argument are excluded from the own-timestamp check. No axioms.",
              tech="Coq proof (per-field hint theorems over a tape-driven model) + byte-exact tape replay against impersonate_tcp + property-text oracle", ref="DESIGN.md sections 4 C14, 10"),
  "C05": dict(text="Coq: (1) C05_supported_sound - for every signature in the decidable class Supported (no IP options, option kinds NOP/MSS/WS/SACKOK/TS plus an "
-                  "optional final EOL with its natural padding, no opt+/bad, window literal / * / %N / mss*N when MSS*N fits) that is quirk-coherent with the base, "
+                  "optional final EOL with its natural padding, no opt+/bad, window literal / * / %N / mss*N when MSS*N fits) that is satisfiable by some real packet of the base's IP version and SYN/SYN+ACK type (quirk coherence is proved to follow from that: C05_coherence_from_satisfiability), "
                   "every admissible base packet (IPv4/IPv6, SYN/SYN+ACK, any hints and extra flag bits), every extra_hops below TTL and within max distance and EVERY "
                   "random tape, the packet the impersonator builds - encoded as Scapy does, dissected as pyp0f does - is matched by the requested signature EXACTLY "
                   "at distance extra_hops (1472-line proof over the models of impersonator, encoder, dissector, option walker and matcher); (2) "
@@ -138,8 +138,7 @@ CLAIMED = {
                   "on which the output fails. The full statement is false of the code (8 known-finding classes, listed in known_findings.json). " + TIE +
                   " Signatures are generated from witnesses (real packets), the oracle is the verified extractor+matcher applied to bytes(out), the model must "
                   "reproduce bytes(out) byte for byte under the recorded tape, and every case inside the theorem's domain is checked to pass.",
-             note="Trusted: as C01/C03; 'satisfiable' is read relative to the base's type and IP version; quirk coherence (coherent_b) is assumed by the theorem and "
-                  "observed (not proved) to follow from satisfiability; Scapy's option padding and field packing are modelled in enc_out and exercised by the byte-exact "
+             note="Trusted: as C01/C03; 'satisfiable' is read relative to the base's type and IP version; Scapy's option padding and field packing are modelled in enc_out and exercised by the byte-exact "
                   "tie; failures on signatures inside a known-finding class are reported as KNOWN-FINDING, anything else as VIOLATION. No axioms.",
              tech="Coq proof (impersonate -> encode -> dissect -> match = Exact on Supported; refutations by vm_compute elsewhere) + witness-derived differential run with verified oracle and byte-exact tape replay", ref="DESIGN.md sections 4 C05, 10"),
 }
